@@ -1,147 +1,164 @@
-"""Harness registry: which #[kani::proof] decides which property, at which tier, with which bound."""
+"""Harness registry: which #[kani::proof] decides which property, at which tier, with which bound.
+
+Tiers: Q = quick (run on every change), T = thorough only, X = kept in the harness files as a
+measured negative result (did not reach a verdict inside the caps on this machine; never selected,
+listed in DESIGN.md section 5).  `fs_size` = CBMC --max-field-sensitivity-array-size for this harness.
+"""
 
 DEFAULT_MODELS = ["indexmap", "flate2", "weezl", "log"]
+MD5M = DEFAULT_MODELS + ["md-5"]
+RM = DEFAULT_MODELS + ["rangemap"]
 
 HARNESSES = []
 
 
-def H(name, module, props, funcs, bound, timeout=300, mem_gb=10, **kw):
+def H(name, module, props, funcs, bound, timeout=600, mem_gb=8, **kw):
     d = dict(name=name, module=module, props=props, funcs=funcs, bound=bound, timeout=timeout, mem_gb=mem_gb)
     d.update(kw)
     HARNESSES.append(d)
 
 
-Q, T = "quick", "thorough"
+Q, T, X = "quick", "thorough", "disabled"
+LS = ["std::string::String::from_utf8_lossy -> empty text (error message of Dictionary::get is irrelevant)"]
+CONTAINS = ["<[usize]>::contains -> linear scan (same semantics)"]
 
-# ---------------------------------------------------------------- C09 (filters) -----------------
+# =============================== C09 / C04: PNG predictors ======================================
 H("c09_paeth", "png.rs", {"C09": Q}, ["filters::png::paeth_predict"],
-  "all 2^24 (left, above, upper-left) triples vs PNG 9.4 text", timeout=120)
+  "all 2^24 (left, above, upper-left) triples vs PNG 9.4 text", timeout=300, mem_gb=4)
 for ft in ("none", "sub", "up", "avg", "paeth"):
-    H(f"c09_row_{ft}_4", "png.rs", {"C09": Q}, ["filters::png::decode_row"],
-      "all rows of length 0..=4 x previous rows x bpp 1..=3 vs PNG 9.2 reconstruction", timeout=300)
+    H(f"c09_row_{ft}_4", "png.rs", {"C09": Q, "C04": Q}, ["filters::png::decode_row"],
+      "all rows of length 0..=4 x previous rows x bpp 1..=3 vs PNG 9.2 reconstruction", timeout=400, mem_gb=4)
+for g, tier in (("row2_bpp1", X), ("row2_bpp2", X), ("row3_bpp3", X)):
+    H(f"c09_frame_{g}", "png.rs", {"C09": tier, "C04": tier}, ["filters::png::decode_frame", "filters::png::decode_row"],
+      f"geometry {g}: two rows, all filter bytes (valid and invalid) and data bytes vs PNG 9.2 reconstruction", timeout=900)
+H("c09_frame_truncated", "png.rs", {"C09": X, "C04": X}, ["filters::png::decode_frame"], "row length 2, 5 bytes of data (second row truncated): error", timeout=600)
 
-for n, tier, to in ((1, Q, 200), (2, Q, 300), (3, Q, 500), (4, Q, 900), (5, T, 1800), (6, T, 2700), (7, T, 3600)):
-    H(f"c09_ascii85_eod_{n}", "object.rs", {"C09": tier}, ["object::Stream::decode_ascii85"],
-      f"all 256^{n} bodies of exactly {n} bytes followed by the EOD marker '~>' vs ISO 32000-1 7.4.3 reference decoder", timeout=to,
-      mem_gb=10 if n >= 4 else 6)
-for n, tier, to in ((2, Q, 600), (3, T, 1800)):
-    H(f"c09_ascii85_noeod_{n}", "object.rs", {"C09": tier}, ["object::Stream::decode_ascii85"],
-      f"all inputs of exactly {n} bytes without EOD marker vs ISO 32000-1 7.4.3 reference decoder", timeout=to, mem_gb=10)
-for n, tier, to in ((4, Q, 600), (5, Q, 900), (6, T, 2700)):
-    H(f"c04_ascii85_nopanic_{n}", "object.rs", {"C04": tier}, ["object::Stream::decode_ascii85"],
-      f"all 256^{n} inputs of exactly {n} bytes: no panic (overflow checks on), returns Ok or Err", timeout=to, mem_gb=8)
+# =============================== C09 / C04: ASCII85 =============================================
+for n, tier, to, mem in ((1, Q, 400, 6), (2, Q, 600, 8), (3, T, 1500, 12), (4, X, 900, 10), (5, X, 1800, 10), (6, X, 2700, 10), (7, X, 3600, 10)):
+    H(f"c09_ascii85_eod_{n}", "object.rs", {"C09": tier, "C04": tier}, ["object::Stream::decode_ascii85"],
+      f"all 256^{n} bodies of exactly {n} bytes followed by the EOD marker '~>' vs ISO 32000-1 7.4.3 reference decoder (and no panic)", timeout=to, mem_gb=mem)
+for n in (2, 3):
+    H(f"c09_ascii85_noeod_{n}", "object.rs", {"C09": X}, ["object::Stream::decode_ascii85"], f"all inputs of exactly {n} bytes without EOD marker", timeout=1800, mem_gb=10)
+for n in (4, 5, 6):
+    H(f"c04_ascii85_nopanic_{n}", "object.rs", {"C04": X}, ["object::Stream::decode_ascii85"], f"all 256^{n} inputs: no panic", timeout=900, mem_gb=8)
+
+# =============================== C09 / C04: predictor plumbing, Length, compress =================
 H("c09_predictor_params", "object.rs", {"C09": Q}, ["object::Stream::decompress_predictor"],
-  "Predictor 0..=20, Columns 1..=10^6, Colors 1..=32, Bits in {8,16}, each key present/absent; png::decode_frame replaced by a recording stub",
-  stubs=["filters::png::decode_frame -> recording stub"])
-H("c09_predictor_none", "object.rs", {"C09": Q}, ["object::Stream::decompress_predictor"], "no DecodeParms, all 3-byte data")
-H("c04_predictor_params_any", "object.rs", {"C04": Q}, ["object::Stream::decompress_predictor"],
-  "Predictor 12 with ANY i64 Columns, Colors, BitsPerComponent; decode_frame replaced by a recording stub",
-  stubs=["filters::png::decode_frame -> recording stub"])
+  "Predictor 0..=20, Columns 1..=10^6, Colors 1..=32, Bits in {8,16}, each key an integer or null (= absent); png::decode_frame replaced by a recording stub",
+  timeout=900, mem_gb=10, stubs=["filters::png::decode_frame -> recording stub"] + LS)
+H("c09_predictor_none", "object.rs", {"C09": Q}, ["object::Stream::decompress_predictor"], "no DecodeParms, all 3-byte data", timeout=300, mem_gb=4)
+H("c04_predictor_params_any", "object.rs", {"C04": Q, "C09": Q}, ["object::Stream::decompress_predictor"],
+  "Predictor 12 with ANY i64 Columns, Colors, BitsPerComponent (overflow checks on); decode_frame replaced by a recording stub",
+  timeout=600, mem_gb=8, stubs=["filters::png::decode_frame -> recording stub"] + LS)
 for g in ("c2_k1_b8", "c1_k1_b16", "c1_k3_b8", "c2_k1_b16"):
-    H(f"c09_predictor_frame_{g}", "object.rs", {"C09": Q if g != "c2_k1_b16" else T},
-      ["object::Stream::decompress_predictor", "filters::png::decode_frame", "filters::png::decode_row"],
-      f"geometry {g} (columns/colors/bits), two rows, all filter bytes and data bytes, predictor 10..=15, vs PNG 9.2", timeout=600)
-H("c09_length_set_ops", "object.rs", {"C09": Q}, ["object::Stream::new", "object::Stream::set_content", "object::Stream::set_plain_content", "object::Stream::decompress"],
-  "3-byte initial content, new content of 0..=2 symbolic bytes, op in {set_content, set_plain_content, decompress}")
-H("c09_compress_never_longer", "object.rs", {"C09": Q}, ["object::Stream::compress"],
-  "22-byte content, encoder stub output length arbitrary 0..=24, pre-existing Filter present/absent", timeout=600)
-H("c09_chain_single_dict", "object.rs", {"C09": Q}, ["object::Stream::decompressed_content", "object::Stream::filters", "object::Stream::decompress_zlib", "object::Stream::decompress_lzw", "object::Stream::decompress_predictor"],
-  "one filter (Flate|LZW) as Name or 1-array, DecodeParms dict with EarlyChange absent/0/1 and Predictor 12 absent/present, all 4-byte contents; codecs are tagged transparent stubs", timeout=900)
-H("c09_chain_parms_array", "object.rs", {"C09": Q}, ["object::Stream::decompressed_content"],
-  "1..=2 filters over {Flate,LZW}, DecodeParms as an array parallel to the filters (dict or null per stage), all 4-byte contents", timeout=900)
-H("c09_chain_order", "object.rs", {"C09": Q}, ["object::Stream::decompressed_content", "object::Stream::decode_ascii85"],
-  "chains of 2..=3 filters over {Flate,LZW,ASCII85}, no parameters, all 5-byte contents", timeout=1200, mem_gb=10)
+    H(f"c09_predictor_frame_{g}", "object.rs", {"C09": X}, ["object::Stream::decompress_predictor", "filters::png::decode_frame"],
+      f"geometry {g}, two rows through dictionary + real decode_frame", timeout=600)
+H("c09_length_set_content", "object.rs", {"C09": Q}, ["object::Stream::new", "object::Stream::set_content"], "3-byte initial content, 2 symbolic new bytes, stream with Filter", timeout=400, mem_gb=6, stubs=LS)
+H("c09_length_set_plain_content", "object.rs", {"C09": X}, ["object::Stream::set_plain_content"], "3-byte initial content, 2 symbolic new bytes", timeout=600, stubs=LS)
+H("c09_length_decompress", "object.rs", {"C09": X}, ["object::Stream::decompress"], "3 symbolic bytes through the tagged inflate stub", timeout=600, stubs=LS)
+H("c09_compress_never_longer", "object.rs", {"C09": Q}, ["object::Stream::compress", "object::Stream::set_content"],
+  "22-byte content, encoder stub output length arbitrary 0..=24: never longer, Length consistent, Filter set iff replaced", timeout=900, mem_gb=12, stubs=LS + ["flate2::write::ZlibEncoder -> output of arbitrary length"])
+H("c09_compress_prefiltered", "object.rs", {"C09": Q}, ["object::Stream::compress"], "22-byte content, stream already has a Filter: untouched", timeout=400, mem_gb=6, stubs=LS)
+for n in ("c09_chain_flate_name_dict", "c09_chain_lzw_array_dict", "c09_chain_parms_array_1", "c09_chain_parms_array_2", "c09_chain_order_a85_flate", "c09_chain_order_3", "c09_chain_unknown_filter"):
+    H(n, "object.rs", {"C09": X}, ["object::Stream::decompressed_content"], "filter-chain plumbing over tagged codec stubs (did not reach a verdict)", timeout=900, stubs=LS)
 
-# ---------------------------------------------------------------- writer kernels (C01/C03/C14/C19)
+# =============================== C01 / C03 / C14: writer kernels ================================
 WK = {"C01": Q, "C03": Q, "C14": Q}
-for n, tier in ((1, Q), (2, Q), (3, T)):
-    H(f"c01_name_{n}", "writer.rs", {"C01": tier, "C03": tier, "C14": tier}, ["writer::Writer::write_name"],
-      f"all names of exactly {n} bytes: token is regular printable ASCII and an ISO 7.3.5 reader recovers the bytes", timeout=900 if n < 3 else 2700)
-for n, tier in ((1, Q), (2, Q), (3, Q), (4, T)):
-    H(f"c01_litstr_{n}", "writer.rs", {"C01": tier, "C03": tier, "C14": tier}, ["writer::Writer::write_string"],
-      f"all literal strings of exactly {n} bytes: an ISO 7.3.4.2 reader (escapes, octal, balanced parentheses, EOL normalisation) recovers the bytes", timeout=900 if n < 4 else 2700)
-H("c01_hexstr_2", "writer.rs", WK, ["writer::Writer::write_string"], "all hex strings of 2 bytes", timeout=900)
-H("c01_int_i16", "writer.rs", WK, ["writer::Writer::write_object"], "all i16 integers read back by a decimal reader", timeout=600)
-H("c01_int_i64", "writer.rs", {"C01": T, "C03": T, "C14": T}, ["writer::Writer::write_object"], "all i64 integers read back by a decimal reader", timeout=2700, mem_gb=10)
-H("c03_xref_entry", "writer.rs", {"C01": T, "C03": T}, ["xref::XrefEntry::write_xref_entry"], "all (u32 offset, u16 generation): entry is exactly 20 bytes and both fields read back", timeout=2700, mem_gb=10)
-H("c03_xref_entry_free", "writer.rs", {"C03": Q}, ["xref::XrefEntry::write_xref_entry"], "Free / UnusableFree / Compressed entries are 20-byte 'f' entries", timeout=900)
-H("c19_counting_write", "writer.rs", {"C19": Q, "C03": Q}, ["writer::CountingWrite::write", "writer::CountingWrite::write_all"],
-  "sink budget 0..=12, chunk 1..=4, failure kind {Err, Ok(0)}, one transient Interrupted at any offset; 9 bytes written via write_all/write!", timeout=900)
+WKT = {"C01": T, "C03": T, "C14": T}
+WKX = {"C01": X}
+for n, pr, to, mem in ((1, WK, 400, 6), (2, WK, 600, 8), (3, WKX, 2700, 10)):
+    H(f"c01_name_{n}", "writer.rs", pr, ["writer::Writer::write_name"],
+      f"all names of exactly {n} bytes: token is regular printable ASCII and an ISO 7.3.5 reader recovers the bytes", timeout=to, mem_gb=mem)
+for n, pr, to, mem in ((1, WK, 400, 6), (2, WK, 900, 14), (3, WKX, 900, 10), (4, WKX, 2700, 10)):
+    H(f"c01_litstr_{n}", "writer.rs", pr, ["writer::Writer::write_string"],
+      f"all literal strings of exactly {n} bytes: an ISO 7.3.4.2 reader (escapes, octal, balanced parentheses, EOL normalisation) recovers the bytes",
+      timeout=to, mem_gb=mem, stubs=CONTAINS)
+H("c01_separator_scalars", "writer.rs", {"C01": X}, ["writer::Writer::need_separator", "writer::Writer::need_end_separator", "writer::Writer::write_object"],
+  "null, true/false, all i16 integers, references (id u8): separator predicates agree with the first/last byte write_object emits", timeout=900, mem_gb=8)
+H("c01_separator_name", "writer.rs", {"C01": X}, ["writer::Writer::need_separator", "writer::Writer::need_end_separator", "writer::Writer::write_name"],
+  "all 1-byte names: separator predicates agree with the first/last byte emitted", timeout=900, mem_gb=8)
+H("c01_hexstr_2", "writer.rs", WK, ["writer::Writer::write_string"], "all hex strings of 2 bytes", timeout=400, mem_gb=6)
+H("c01_int_i16", "writer.rs", WK, ["writer::Writer::write_object"], "all i16 integers read back by a decimal reader", timeout=600, mem_gb=8)
+H("c01_int_i64", "writer.rs", WKX, ["writer::Writer::write_object"], "all i64 integers", timeout=2700, mem_gb=10)
+H("c03_xref_entry", "writer.rs", {"C03": X}, ["xref::XrefEntry::write_xref_entry"], "all (u32 offset, u16 generation)", timeout=2700, mem_gb=10)
+H("c03_xref_entry_free", "writer.rs", {"C03": Q, "C01": Q}, ["xref::XrefEntry::write_xref_entry"], "Free / UnusableFree / Compressed entries are 20-byte 'f' entries", timeout=600, mem_gb=8)
+H("c01_xrefstm_entry_packing", "parser_aux.rs", {"C01": Q, "C03": Q, "C02": Q}, ["parser_aux::read_big_endian_integer"],
+  "all (u8,u32,u16) entries packed [1 4 2] big-endian are read back by the reader's field decoder", timeout=400, mem_gb=4)
+H("c03_indirect_object_scalar", "writer.rs", {"C03": X, "C01": X}, ["writer::Writer::write_indirect_object", "writer::Writer::need_separator", "writer::Writer::need_end_separator", "writer::CountingWrite"],
+  "all object numbers (u32), generations (u16), start offsets 0..=1000, object in {null, true, false, 7}: exact framing and xref entry (offset, generation)", timeout=1500, mem_gb=12)
+H("c03_write_xref_subsets4", "writer.rs", {"C03": X}, ["writer::Writer::write_xref"], "all 16 subsets of ids 1..=4", timeout=1800, mem_gb=12)
+H("c03_write_xref_gaps6", "writer.rs", {"C03": X}, ["writer::Writer::write_xref"], "selected subsets of ids 1..=6", timeout=1800, mem_gb=12)
+H("c03_xref_stream_rows", "writer.rs", {"C03": X}, ["writer::Writer::create_xref_steam"], "all 16 subsets of ids 1..=4", timeout=1800, mem_gb=12)
+H("c14_encode_two_ops", "content.rs", {"C14": X}, ["content::Content::encode"], "two operations with symbolic operands", timeout=1800, mem_gb=12, stubs=CONTAINS)
+H("c14_encode_no_operands", "content.rs", {"C14": X}, ["content::Content::encode"], "one or two operand-less operations", timeout=600, mem_gb=6)
 
-# ---------------------------------------------------------------- C16 text strings / encodings ---
-H("c16_text_string_rt_1", "cds.rs", {"C16": Q}, ["common_data_structures::text_string", "common_data_structures::decode_text_string", "encodings::encode_utf16_be", "encodings::bytes_to_string"],
-  "every Unicode scalar value as a one-character string: text_string then decode_text_string returns it", timeout=900, mem_gb=8)
-H("c16_text_string_rt_2", "cds.rs", {"C16": T}, ["common_data_structures::text_string", "common_data_structures::decode_text_string"],
-  "every pair of Unicode scalar values as a two-character string", timeout=2700, mem_gb=12)
-H("c16_text_string_utf8_bom", "cds.rs", {"C16": Q}, ["common_data_structures::decode_text_string", "encodings::encode_utf8"],
-  "every scalar value, UTF-8 with byte-order mark", timeout=900, mem_gb=8)
-for n, tier, to in ((3, Q, 600), (4, Q, 900), (5, T, 2700)):
-    H(f"c04_decode_text_string_{n}", "cds.rs", {"C04": tier, "C16": tier}, ["common_data_structures::decode_text_string"],
-      f"all 256^{n} raw strings of exactly {n} bytes: Ok or Err, no panic", timeout=to, mem_gb=8)
+# =============================== C19 / C03: CountingWrite under faulty sinks =====================
+for v, d, mem in (("hard_error", "hard Err when the budget is used up", 14), ("zero_write", "Ok(0) when the budget is used up", 6), ("interrupted", "one transient Interrupted at any offset, then hard Err", 12)):
+    H(f"c19_counting_write_{v}", "writer.rs", {"C19": Q, "C03": Q}, ["writer::CountingWrite::write", "writer::CountingWrite::write_all"],
+      f"sink budget 0..=9, chunk 1..=3, {d}; 7 bytes (4 symbolic) through write_all twice", timeout=900, mem_gb=mem)
+H("c19_write_stream_chunked", "writer.rs", {"C19": X, "C03": X}, ["writer::Writer::write_stream", "writer::Writer::write_dictionary"],
+  "empty dictionary, 3 symbolic content bytes, sink accepting 1..=3 bytes per call: delivered bytes are exactly the framing + content", timeout=900, mem_gb=10)
+H("c19_counting_write_partial", "writer.rs", {"C19": Q}, ["writer::CountingWrite::write"], "single write of 4 bytes to a sink accepting 0..=4 bytes", timeout=300, mem_gb=4)
+
+# =============================== C16 / C04: text strings, one-byte encodings =====================
+H("c16_text_string_ascii_1", "cds.rs", {"C16": X}, ["common_data_structures::text_string", "common_data_structures::decode_text_string"], "every ASCII character as a one-character string", timeout=900, mem_gb=12, fs_size=300)
+H("c16_text_string_rt_1", "cds.rs", {"C16": X}, ["common_data_structures::text_string", "common_data_structures::decode_text_string"], "every Unicode scalar value", timeout=900, mem_gb=8)
+H("c16_text_string_rt_2", "cds.rs", {"C16": X}, ["common_data_structures::text_string"], "every pair of scalar values", timeout=2700, mem_gb=12)
+H("c16_text_string_utf8_bom", "cds.rs", {"C16": X}, ["common_data_structures::decode_text_string"], "every scalar value, UTF-8 with BOM", timeout=900, mem_gb=8)
+for n in (3, 4, 5):
+    H(f"c04_decode_text_string_{n}", "cds.rs", {"C04": X}, ["common_data_structures::decode_text_string"], f"all raw strings of {n} bytes", timeout=900, mem_gb=8)
 for t in ("standard", "macroman", "macexpert", "winansi", "pdfdoc"):
-    H(f"c16_table_{t}", "encodings.rs", {"C16": Q}, ["encodings::bytes_to_string"],
-      f"{t} table x all 256 bytes: decode total, equals the table cell, <= 1 char", timeout=600, mem_gb=6)
-H("c16_reencode_winansi", "encodings.rs", {"C16": T}, ["encodings::bytes_to_string", "encodings::string_to_bytes"],
-  "WinAnsi x all 256 bytes: decode-encode-decode stable", timeout=3000, mem_gb=8)
-H("c16_tables_published_rules", "encodings.rs", {"C16": Q}, ["encodings::mappings"], "all 256 bytes vs Annex D rules (printable ASCII, Latin-1 range)", timeout=300)
-H("c16_encode_utf16_be", "encodings.rs", {"C16": Q}, ["encodings::encode_utf16_be"], "every Unicode scalar value", timeout=600)
+    H(f"c16_table_{t}", "encodings.rs", {"C16": X}, ["encodings::bytes_to_string"], f"{t} table x all 256 bytes through bytes_to_string", timeout=600, mem_gb=6)
+H("c16_reencode_winansi", "encodings.rs", {"C16": X}, ["encodings::string_to_bytes"], "WinAnsi x all 256 bytes", timeout=3000, mem_gb=8)
+for t in ("standard", "winansi"):
+    H(f"c16_string_to_bytes_{t}_ascii", "encodings.rs", {"C16": X}, ["encodings::string_to_bytes"],
+      f"{t}: every printable ASCII character encodes to one byte whose table cell is that character", timeout=1200, mem_gb=10)
+H("c16_tables_no_surrogates", "encodings.rs", {"C16": Q, "C04": Q}, ["encodings::mappings::{STANDARD,MAC_ROMAN,MAC_EXPERT,WIN_ANSI,PDF_DOC}_ENCODING"],
+  "5 tables x all 256 bytes: no cell is a UTF-16 surrogate (so bytes_to_string's expect cannot fire on any single byte)", timeout=300, mem_gb=4)
+H("c16_tables_published_rules", "encodings.rs", {"C16": Q}, ["encodings::mappings"], "all 256 bytes vs Annex D rules (printable ASCII, Latin-1 range)", timeout=300, mem_gb=4)
+H("c16_encode_utf16_be", "encodings.rs", {"C16": Q}, ["encodings::encode_utf16_be"], "every Unicode scalar value: BOM + big-endian units / surrogate pair", timeout=600, mem_gb=8)
 
-# ---------------------------------------------------------------- C05 / C06 primitives ----------
+# =============================== C05 / C06: primitives ===========================================
 H("c05_pkcs5_roundtrip", "pkcs5.rs", {"C05": Q, "C06": Q}, ["encryption::pkcs5::Pkcs5::raw_pad", "encryption::pkcs5::Pkcs5::raw_unpad"],
-  "all 16-byte blocks x all pad positions 0..=15", timeout=600)
-H("c05_pkcs5_unpad_spec", "pkcs5.rs", {"C05": Q, "C06": Q}, ["encryption::pkcs5::Pkcs5::raw_unpad"],
-  "all 16-byte blocks: accepted iff PKCS#5-well-formed", timeout=600)
-FS300 = ["-Z", "unstable-options", "--cbmc-args", "--max-field-sensitivity-array-size", "300"]
-H("c06_rc4_key_vector", "rc4.rs", {"C05": Q, "C06": Q}, ["encryption::rc4::Rc4::new", "encryption::rc4::Rc4::encrypt", "encryption::rc4::Rc4::decrypt"],
-  "key 'Key' (published vector), all 8-byte plaintexts; decrypt inverts encrypt", kani_args=FS300, timeout=900)
-H("c06_rc4_ref_key40", "rc4.rs", {"C06": Q, "C05": Q}, ["encryption::rc4::Rc4::new", "encryption::rc4::Rc4::apply_keystream"], "one concrete 40-bit key, all 6-byte plaintexts vs reference RC4", kani_args=FS300, timeout=900)
-H("c06_rc4_ref_key128", "rc4.rs", {"C06": Q}, ["encryption::rc4::Rc4::new", "encryption::rc4::Rc4::apply_keystream"], "one concrete 128-bit key, all 6-byte plaintexts vs reference RC4", kani_args=FS300, timeout=900)
-H("c06_rc4_ref_symkey1", "rc4.rs", {"C06": T}, ["encryption::rc4::Rc4::new", "encryption::rc4::Rc4::apply_keystream"], "every 1-byte key x all 2-byte plaintexts vs reference RC4", kani_args=FS300, timeout=2700, mem_gb=16)
-H("c06_rc4_ref_symkey2", "rc4.rs", {"C06": T}, ["encryption::rc4::Rc4::new", "encryption::rc4::Rc4::apply_keystream"], "every 2-byte key x all 2-byte plaintexts vs reference RC4", kani_args=FS300, timeout=2700, mem_gb=16)
+  "all 16-byte blocks x all pad positions 0..=15", timeout=400, mem_gb=4)
+H("c05_pkcs5_unpad_spec", "pkcs5.rs", {"C05": Q, "C06": Q}, ["encryption::pkcs5::Pkcs5::raw_unpad"], "all 16-byte blocks: accepted iff PKCS#5-well-formed", timeout=400, mem_gb=4)
+H("c06_rc4_key_vector", "rc4.rs", {"C05": Q, "C06": Q}, ["encryption::rc4::Rc4::new", "encryption::rc4::Rc4::encrypt", "encryption::rc4::Rc4::decrypt", "encryption::rc4::Rc4::apply_keystream"],
+  "key 'Key' (published test vector), all 8-byte plaintexts: ciphertext = plaintext XOR published keystream; decrypt inverts encrypt", timeout=1200, mem_gb=20, fs_size=300)
+H("c06_rc4_ref_key40", "rc4.rs", {"C06": X}, ["encryption::rc4::Rc4::new"], "one concrete 40-bit key vs reference RC4", timeout=900, fs_size=300)
+H("c06_rc4_ref_key128", "rc4.rs", {"C06": X}, ["encryption::rc4::Rc4::new"], "one concrete 128-bit key vs reference RC4", timeout=900, fs_size=300)
+H("c06_rc4_ref_symkey1", "rc4.rs", {"C06": X}, ["encryption::rc4::Rc4::new"], "every 1-byte key", timeout=2700, mem_gb=16, fs_size=300)
+H("c06_rc4_ref_symkey2", "rc4.rs", {"C06": X}, ["encryption::rc4::Rc4::new"], "every 2-byte key", timeout=2700, mem_gb=16, fs_size=300)
+for v, d in (("rc4_key40", "RC4, 40-bit file key"), ("rc4_key128", "RC4, 128-bit file key"), ("aes_key128", "AESV2 (adds 'sAlT'), 128-bit file key")):
+    H(f"c06_alg1_{v}", "crypt_filters.rs", {"C06": X}, ["encryption::crypt_filters::Rc4CryptFilter::compute_key", "encryption::crypt_filters::Aes128CryptFilter::compute_key"],
+      f"Algorithm 1, {d}; MD5 replaced by the recording model", timeout=900, models=MD5M, stubs=["md-5 -> transparent recording hash model"])
+H("c05_identity_filter", "crypt_filters.rs", {"C05": Q}, ["encryption::crypt_filters::IdentityCryptFilter"], "all 4-byte data, all 5-byte keys: encrypt and decrypt are the identity", timeout=300, mem_gb=4, models=MD5M)
+H("c05_rc4_filter_roundtrip", "crypt_filters.rs", {"C05": X}, ["encryption::crypt_filters::Rc4CryptFilter::encrypt"], "concrete key, all 6-byte data", timeout=1200, models=MD5M, fs_size=300)
+H("c06_permissions_p_value", "encryption.rs", {"C06": Q}, ["encryption::Permissions::p_value"], "all 2^64 bit patterns vs ISO 32000-1 Table 22 reserved bits", timeout=300, mem_gb=4)
 
-# ---------------------------------------------------------------- C02 / C07 / C04 structural ----
-XF = ["parser_aux::decode_xref_stream", "parser_aux::read_big_endian_integer", "parser_aux::parse_integer_array", "xref::Xref::insert"]
-H("c02_xrefstm_c6_w2", "parser_aux.rs", {"C02": Q, "C07": Q, "C04": Q}, XF,
-  "W each 0..=2, Index [start 0..=3, count 0..=2] or absent (Size 0..=2), all 6-byte contents vs ISO 7.5.8 reference", timeout=1200, mem_gb=12)
-H("c02_xrefstm_c8_w4", "parser_aux.rs", {"C02": T, "C07": T, "C04": T}, XF,
-  "W each 0..=4, Index [start 0..=3, count 0..=2] or absent, all 8-byte contents", timeout=3000, mem_gb=16)
-H("c02_xrefstm_two_sections", "parser_aux.rs", {"C02": Q, "C07": Q}, XF, "two subsections [s0 1 s1 1], s0 != s1 in 0..=4, W [1 1 1], all 6-byte contents", timeout=1200, mem_gb=12)
-H("c01_xrefstm_entry_packing", "parser_aux.rs", {"C01": Q, "C03": Q}, ["parser_aux::read_big_endian_integer"], "all (u8,u32,u16) entries packed [1 4 2] big-endian read back", timeout=600)
-H("c04_xrefstm_hostile_widths", "parser_aux.rs", {"C04": Q}, XF, "W entries any i64 <= 4 or >= 2^44, 6-byte content; allocator model caps allocations at 4 KiB",
-  timeout=1200, mem_gb=12, stubs=["std::alloc::{alloc,alloc_zeroed,realloc,dealloc} -> fixed 4 KiB block arena (allocation above it fails an assertion)"])
-H("c04_xrefstm_hostile_index", "parser_aux.rs", {"C04": Q}, XF, "Index start any i64, count <= 3 or >= 2^40, Size any i64, W each 0..=1, 6-byte content", timeout=1200, mem_gb=12)
-H("c07_xref_merge_newest_wins", "xref.rs", {"C07": Q, "C02": Q}, ["xref::Xref::merge"], "ids 1..=3, presence and offsets symbolic in both tables", timeout=900)
-H("c02_xref_max_id", "xref.rs", {"C02": Q}, ["xref::Xref::max_id"], "any subset of 4 ids", timeout=600)
-for n in ("ab_6", "aab_7", "aa_6"):
-    H(f"c02_search_substring_{n}", "reader.rs", {"C02": Q, "C04": Q}, ["reader::Reader::search_substring"],
-      f"pattern/buffer {n}: all buffers over the pattern alphabet + 1 foreign byte, all start positions, vs last-occurrence reference", timeout=900)
-
-# ---------------------------------------------------------------- C12 / C13 document level -------
+# =============================== C02 / C07 / C12 / C13 / C15: measured negative results ==========
+XF = ["parser_aux::decode_xref_stream"]
+for n in ("c02_xrefstm_index_c6_w2", "c02_xrefstm_noindex_c6_w2", "c02_xrefstm_index_c8_w4", "c02_xrefstm_two_sections", "c04_xrefstm_hostile_widths", "c04_xrefstm_hostile_index"):
+    H(n, "parser_aux.rs", {"C02": X}, XF, "cross-reference stream decoding vs ISO 7.5.8 reference (did not reach a verdict)", timeout=1200, mem_gb=12, stubs=LS)
+H("c07_xref_merge_newest_wins", "xref.rs", {"C07": X}, ["xref::Xref::merge"], "newer = {1,2,4}, older = {2,3,4}", timeout=900)
+H("c02_xref_max_id", "xref.rs", {"C02": X}, ["xref::Xref::max_id"], "any three ids", timeout=600)
+for n in ("ab_3", "aa_4"):
+    H(f"c02_search_substring_{n}", "reader.rs", {"C02": X}, ["reader::Reader::search_substring"], f"pattern/buffer {n}", timeout=900)
 RS = ["std::hash::RandomState::new -> fixed keys"]
-H("c13_dereference_cycles", "document.rs", {"C13": Q}, ["document::Document::dereference"],
-  "3 objects each a reference to 1..=4 (4 dangling) or an integer; start reference symbolic; DEREF_LIMIT 128 covered by unwind 132", timeout=1200, mem_gb=12, stubs=RS)
-H("c12_page_iter_tree4", "document.rs", {"C12": Q, "C13": Q}, ["document::PageTreeIter::new", "document::PageTreeIter::next", "document::PageTreeIter::kids", "document::Document::catalog"],
-  "all well-formed page trees with 4 nodes below the root (each Page or Pages, any parent among lower-numbered Pages nodes): page_iter equals reference DFS", timeout=1800, mem_gb=12, stubs=RS)
-
-H("c03_write_xref_4", "writer.rs", {"C03": Q, "C01": Q}, ["writer::Writer::write_xref", "xref::XrefSection::write_xref_section", "xref::XrefEntry::write_xref_entry"],
-  "every subset of in-use objects among ids 1..=4 (all gap widths): strict 7.5.4 table reader recovers exactly those entries", timeout=1800, mem_gb=12)
-H("c03_write_xref_6", "writer.rs", {"C03": T, "C01": T}, ["writer::Writer::write_xref", "xref::XrefSection::write_xref_section"],
-  "every subset of in-use objects among ids 1..=6", timeout=3000, mem_gb=16)
-H("c03_xref_stream_rows", "writer.rs", {"C03": Q, "C01": Q}, ["writer::Writer::create_xref_steam"],
-  "every subset of in-use objects among ids 1..=4 plus the stream's own entry: W [1 4 2] rows, Index pairs and Length are mutually consistent", timeout=1800, mem_gb=12)
-
-# ---------------------------------------------------------------- C14 content encode ------------
-H("c14_encode_two_ops", "content.rs", {"C14": Q}, ["content::Content::encode", "writer::Writer::write_object", "writer::Writer::write_name", "writer::Writer::write_string"],
-  "operations '<int -9..=99> /<1 byte> Tf' and '<1-byte string, literal or hex> Tj': reference tokenizer recovers operators and operands", timeout=1800, mem_gb=12,
-  stubs=["<[usize]>::contains -> linear scan"])
-H("c14_encode_no_operands", "content.rs", {"C14": Q}, ["content::Content::encode"], "one or two operand-less operations", timeout=600, mem_gb=6)
+for n in ("c13_dereference_chain", "c13_dereference_cycle_limit", "c12_page_iter_wiring", "c12_get_pages_numbering"):
+    H(n, "document.rs", {"C12": X}, ["document::Document"], "document-level harness (did not reach a verdict)", timeout=1200, mem_gb=12, stubs=RS)
+CM = ["encodings::cmap::ToUnicodeCMap::put", "encodings::cmap::ToUnicodeCMap::put_char", "encodings::cmap::ToUnicodeCMap::get"]
+RMS = ["rangemap::RangeInclusiveMap -> sorted-Vec model of the documented contract (overwrite, split, coalesce)"]
+H("c15_array_range_then_char", "cmap.rs", {"C15": X}, CM, "bfrange lo..lo+2 (lo 0..=4) with array target of 3 symbolic units, then bfchar at any code 0..=8; all codes 0..=8", timeout=1200, models=RM, stubs=RMS)
+H("c15_hexstring_range_then_char", "cmap.rs", {"C15": X}, CM, "bfrange lo..lo+3 with two-unit target, then bfchar at any code 0..=9; all codes 0..=9", timeout=1200, models=RM, stubs=RMS)
+H("c15_codepoint_range_and_len", "cmap.rs", {"C15": X}, CM, "2-byte incrementing range lo..lo+n (lo<=200, n<=50), all codes 0..=300 at code length 1 and 2", timeout=1200, models=RM, stubs=RMS)
+H("c04_cmap_hostile_targets", "cmap.rs", {"C15": X}, CM, "empty target, overflowing increment, array shorter than range, equal adjacent arrays; all codes 0..=8: no panic", timeout=1200, models=RM, stubs=RMS)
 
 
 def select(pid, tier):
     out = []
     for h in HARNESSES:
         t = h["props"].get(pid)
-        if t is None:
+        if t is None or t == X:
             continue
         if tier == "thorough" or t == Q:
             out.append(h)
